@@ -108,6 +108,34 @@ class WithTDParams(nn.Module):
         return self.lin(x) * self.extra["scale"] + self.extra["sub", "shift"]
 
 
+class ParamContainers(nn.Module):
+    def __init__(self):
+        super().__init__()
+        self.ps = nn.ParameterList([nn.Parameter(torch.randn(3)) for _ in range(2)])
+        self.pd = nn.ParameterDict({"u": nn.Parameter(torch.randn(2))})
+        self.lin = nn.Linear(3, 2)
+
+    def forward(self, x):
+        return self.lin(x * self.ps[0] + self.ps[1]) + self.pd["u"]
+
+
+class Recurrent(nn.Module):
+    """nn.LSTM / nn.GRU keep a cached list of their weights (`_flat_weights`) that their own __setattr__ refreshes"""
+
+    def __init__(self):
+        super().__init__()
+        self.rnn = nn.LSTM(4, 3)
+        self.gru = nn.GRU(3, 2)
+
+    def forward(self, x):
+        return self.gru(self.rnn(x)[0])[0]
+
+
+def _weight_norm():
+    from torch.nn.utils import parametrizations
+    return nn.Sequential(parametrizations.weight_norm(nn.Linear(3, 3)), nn.Tanh(), nn.Linear(3, 2))
+
+
 FACTORIES = {
     "seq_bn": (lambda: nn.Sequential(nn.Linear(3, 4), nn.BatchNorm1d(4), nn.ReLU(), nn.Linear(4, 2)), "tensor"),
     "shared": (Shared, "tensor"),
@@ -119,6 +147,9 @@ FACTORIES = {
     "lazy": (lambda: nn.Sequential(nn.LazyLinear(2), nn.Tanh()), "tensor"),
     "with_tdparams": (WithTDParams, "tensor"),
     "plain_attr": (PlainAttr, "tensor"),
+    "param_containers": (ParamContainers, "tensor"),
+    "recurrent": (Recurrent, "seq"),
+    "weight_norm": (_weight_norm, "tensor"),
 }
 PARAM_KINDS = ["plain", "tdparams", "as_module", "same", "locked", "subset", "param_all", "cross_kind", "locked_sub"]
 OPTIONS = [{}, {"inplace": True}, {"use_state_dict": True}, {"inplace": False}]
@@ -461,6 +492,83 @@ def vmap_cases(run, rng):
             run.oracle_ok("zoo_output")
 
 
+def vmap_variants(run, rng):
+    """more ways to vmap over batched parameters (the patched torch vmap of tensordict/nn/functional_modules.py): the stack
+    from `from_modules`, a tensordict as the *output* of the mapped function, out_dims=1, the parameters batched along dim 1,
+    vmap nested over parameters and inputs, and an exception raised inside the mapped function: each equals the per-sample
+    loop, and the module is restored."""
+    from tensordict import TensorDict
+    for fname, variant in itertools.product(("shared", "tied", "custom_setattr", "plain_attr", "param_containers"),
+                                            ("from_modules", "td_out", "out_dims_1", "in_dim_1", "nested", "raise")):
+        factory, _ = FACTORIES[fname]
+        torch.manual_seed(5)
+        module = factory()
+        x = torch.randn(4, 3)
+        case = ["vmap", fname, variant]
+        run.case("zoo:vmap:" + fname + ":" + variant)
+        before = snap(module)
+        base = TensorDict.from_module(module).data
+
+        def call(p, x):
+            with p.to_module(module):
+                return module(x)
+        try:
+            with time_limit(90):
+                if variant == "from_modules":
+                    torch.manual_seed(6)
+                    copies = [factory() for _ in range(3)]
+                    batched = TensorDict.from_modules(*copies)
+                    out = torch.vmap(call, (0, None))(batched, x)
+                    loop = torch.stack([c(x) for c in copies], 0)
+                else:
+                    batched = torch.stack([base.apply(lambda t, i=i: t * (0.5 + i)) for i in range(3)], 0)
+                    loop = torch.stack([call(batched[i], x) for i in range(3)], 0)
+                    if variant == "td_out":
+                        res = torch.vmap(lambda p, x: TensorDict({"y": call(p, x)}, [4]), (0, None))(batched, x)
+                        out = res["y"]
+                        if tuple(res.batch_size) != (3, 4):
+                            raise AssertionError(f"batch_size of the mapped tensordict {tuple(res.batch_size)}")
+                    elif variant == "out_dims_1":
+                        out = torch.vmap(call, (0, None), out_dims=1)(batched, x).transpose(0, 1)
+                    elif variant == "in_dim_1":
+                        b2 = torch.stack([batched, batched], 0)          # batch [2, 3]: map over dim 1
+                        out = torch.vmap(lambda p, x: call(p[0], x), (1, None))(b2, x)
+                    elif variant == "nested":
+                        out = torch.vmap(torch.vmap(call, (None, 0)), (0, None))(batched, x)
+                    else:
+                        class VBoom(Exception):
+                            pass
+
+                        def bad(p, x):
+                            with p.to_module(module):
+                                module(x)
+                                raise VBoom()
+                        try:
+                            torch.vmap(bad, (0, None))(batched, x)
+                        except VBoom:
+                            pass
+                        out = loop
+        except TimeoutError:
+            raise
+        except AssertionError as e:
+            run.oracle_fail("zoo_output", case, str(e), "zoo_output:vmap:" + variant)
+            continue
+        except Exception as e:  # noqa: BLE001
+            run.count("zoo.vmap_error", f"{fname}:{variant}:{type(e).__name__}")
+            d = diff(before, snap(module))
+            if d:
+                run.oracle_fail("zoo_restore", case, f"module differs after a failed vmap ({type(e).__name__}): " + ",".join(d[:4]), "zoo:vmap:" + d[0].split(":")[0])
+            continue
+        d = diff(before, snap(module))
+        if d:
+            run.oracle_fail("zoo_restore", case, "module differs after vmap over batched parameters: " + ",".join(d[:4]), "zoo:vmap:" + d[0].split(":")[0])
+        elif out.shape != loop.shape or not torch.allclose(out, loop, atol=1e-5):
+            run.oracle_fail("zoo_output", case, "vmap over batched parameters != per-sample loop", "zoo_output:vmap:" + variant)
+        else:
+            run.oracle_ok("zoo_restore")
+            run.oracle_ok("zoo_output")
+
+
 def from_module_options(run):
     """from_module with its options on the real layers: exactly the parameters and buffers under their qualified names"""
     from tensordict import TensorDict
@@ -597,3 +705,4 @@ def run_zoo(run):
         seen.add((f, pk, o, ft))
         one_case(run, f, pk, OPTIONS[o], ft, rng)
     vmap_cases(run, rng)
+    vmap_variants(run, rng)
